@@ -154,6 +154,23 @@ fn run_op(op: &str, sec: &[u8]) {
                 }
             }
         }
+        // Ristretto equality of one element held as two representatives: the comparison is true either way, but the
+        // second representative is either a re-decoded copy (differs from the first by a 4-torsion point for about
+        // half of all points) or the result of adding and subtracting a public point (same coset representative class
+        // as arithmetic leaves it); which one is chosen by a secret bit outside the traced region
+        "ris_eq_mixed" | "ris_eq_unequal" => {
+            use curve25519_dalek::ristretto::RistrettoPoint;
+            let a = black_box(RistrettoPoint::mul_base(&s2));
+            let q = curve25519_dalek::constants::RISTRETTO_BASEPOINT_POINT * pub_scalar;
+            let b = if op == "ris_eq_unequal" {
+                black_box(RistrettoPoint::mul_base(&s1nz) + q)
+            } else if sec[1] & 1 == 1 {
+                black_box(a.compress().decompress().expect("own encoding"))
+            } else {
+                black_box((a + q) - q)
+            };
+            traced!(&mut slot, black_box(&a) == black_box(&b))
+        }
         "ed_mul_base" => traced!(&mut slot, EdwardsPoint::mul_base(black_box(&s1))),
         "ed_mul" => traced!(&mut slot, black_box(&pub_point) * black_box(&s1)),
         "ed_mul_secret_point" => traced!(&mut slot, black_box(&sp2) * black_box(&s1)),
